@@ -75,6 +75,24 @@ def build(ctx):
     return exe, model
 
 
+def proofs_all(ctx, files):
+    """ctx.proofs for every theorem file.  Quick tier: the re-checks (coqc of each Theorems file + Print
+    Assumptions audit; the .vo builds stay serialised by common's lock) run in 4 threads, then ctx.proofs does its
+    bookkeeping per file in order with the results already computed.  Thorough tier: strictly sequential
+    (ctx.proofs also runs coqchk, never two at once)."""
+    if ctx.tier != "quick":
+        return [ctx.proofs("c15", f) for f in files]
+    from concurrent.futures import ThreadPoolExecutor
+    orig = common.coq_check_theorems
+    with ThreadPoolExecutor(max_workers=4) as ex:
+        res = dict(zip(files, ex.map(lambda f: orig("c15", f), files)))
+    common.coq_check_theorems = lambda d, f, **kw: res[f] if (d == "c15" and f in res) else orig(d, f, **kw)
+    try:
+        return [ctx.proofs("c15", f) for f in files]
+    finally:
+        common.coq_check_theorems = orig
+
+
 def run_model_parallel(model, lines, k=4):
     """The extracted model driver checks each observation line independently: the lines are dealt to k
     driver processes (line i to process i mod k) and the verdict lines are put back in input order."""
@@ -127,9 +145,9 @@ def run(ctx):
         "entry with dPoc = 0 (the current picture)",
     ]
     exe, model = build(ctx)
-    pr = ctx.proofs("c15", "C15Theorems.v")
-    prs = [pr] + [ctx.proofs("c15", f) for f in EXTRA_THEOREM_FILES
-                  if os.path.exists(os.path.join(common.COQ, "c15", f))]
+    files = ["C15Theorems.v"] + [f for f in EXTRA_THEOREM_FILES if os.path.exists(os.path.join(common.COQ, "c15", f))]
+    prs = proofs_all(ctx, files)
+    pr = prs[0]
     d = os.path.join(common.BUILD, "c15")
     os.makedirs(d, exist_ok=True)
     # generation by the model side
